@@ -10,7 +10,37 @@ import (
 	"verif/sim/core"
 )
 
-func genC17(tier string, r *core.Rand) Scenario {
+// C17Plan: a two-station scenario, or (Peer set) the library station against
+// the reference peer, which can ask for transfers from a non-zero offset.
+type C17Plan struct {
+	Scenario
+	Peer *PeerPlan `json:"peer,omitempty"`
+}
+
+func genC17(tier string, r *core.Rand) C17Plan {
+	sc := genC17two(tier, r)
+	if !r.Chance(0.2) {
+		return C17Plan{Scenario: sc}
+	}
+	// the remote is the reference peer; about half of what it accepts it takes from an offset
+	pp := genC05(tier, r)
+	pp.Peer.Byzantine, pp.Peer.Mut, pp.Peer.EarlyFQ, pp.Peer.HastyFQ = false, nil, false, false
+	pp.Lib = sc.A
+	pp.Lib.Status, pp.Lib.Gzip = true, false
+	pp.Link = sc.Sessions[0].Link
+	pp.Peer.Answers = map[string]string{}
+	for _, m := range pp.Lib.Msgs {
+		if r.Bool() {
+			pp.Peer.Answers[m.MID] = core.Choice(r, []string{"!", "A"}) + "p" + fmt.Sprint(r.Range(1, 99))
+		}
+	}
+	if len(pp.PeerMsgs) > 2 {
+		pp.PeerMsgs = pp.PeerMsgs[:2]
+	}
+	return C17Plan{Scenario: sc, Peer: &pp}
+}
+
+func genC17two(tier string, r *core.Rand) Scenario {
 	size := 0
 	switch r.Pick(4, 3, 2) {
 	case 0:
@@ -114,12 +144,16 @@ func checkStatus(sim *core.Sim, prop string, st *stationRT, sentOK, recvOK []str
 }
 
 func execC17(t *testing.T, prop string, raw json.RawMessage, trace bool) core.Outcome {
-	var sc Scenario
+	var pl C17Plan
 	var out core.Outcome
-	if err := json.Unmarshal(raw, &sc); err != nil || len(sc.Sessions) == 0 {
+	if err := json.Unmarshal(raw, &pl); err != nil || (len(pl.Sessions) == 0 && pl.Peer == nil) {
 		out.Violate(prop, "harness", "bad-plan", fmt.Sprint("unusable plan: ", err))
 		return out
 	}
+	if pl.Peer != nil {
+		return execC17peer(t, prop, *pl.Peer, trace)
+	}
+	sc := pl.Scenario
 	sc.A.Status, sc.B.Status = true, true
 	leak, pv, stack := core.Bubble(t, trace, func(sim *core.Sim) {
 		hist := mbox.NewHistory(sim)
@@ -159,6 +193,45 @@ func execC17(t *testing.T, prop string, raw json.RawMessage, trace bool) core.Ou
 			}
 		}
 		out.Sample = sampleOf(sc, a, b)
+		sim.FillOutcome(&out)
+	})
+	if pv != nil {
+		out.Violate(prop, "harness", "bubble-panic", fmt.Sprintf("%v\n%s", pv, stack))
+	}
+	if leak {
+		out.Violate(prop, "status", "reporter-goroutine-left-blocked", "a goroutine started by the session was still blocked 2 simulated seconds after Exchange returned")
+	}
+	return out
+}
+
+// execC17peer: the library station, with the recording StatusUpdater, against
+// the reference peer.
+func execC17peer(t *testing.T, prop string, pp PeerPlan, trace bool) core.Outcome {
+	var out core.Outcome
+	pp.Lib.Status, pp.Lib.Gzip = true, false
+	pp.Peer.Byzantine, pp.Peer.Mut = false, nil
+	pp.Link.Cut = nil
+	leak, pv, stack := core.Bubble(t, trace, func(sim *core.Sim) {
+		pr := runPeerSession(sim, pp)
+		time.Sleep(2 * time.Second)
+		for i := 0; i < 3600 && pr.lib.status != nil && pr.lib.status.Busy(); i++ {
+			time.Sleep(time.Second)
+		}
+		time.Sleep(2 * time.Second)
+		if !pr.finished || pr.res.err != nil || pr.res.panicVal != nil {
+			sim.Probe("session-not-clean")
+		}
+		sim.Probe("library-against-reference-peer")
+		if len(pr.peer.Tails) > 0 {
+			sim.Probe("transfer-resumed-at-a-nonzero-offset")
+		}
+		n := 0
+		if pr.lib.status != nil {
+			n = checkStatus(sim, prop, pr.lib, pr.res.stats.Sent, pr.res.stats.Received)
+		}
+		out.NonTrivial = len(pr.res.stats.Sent) > 0 && n > 0
+		sim.ProbeN("status-reports", n)
+		sim.ProbeN("messages-transferred", len(pr.res.stats.Sent))
 		sim.FillOutcome(&out)
 	})
 	if pv != nil {
